@@ -18,7 +18,7 @@ MANIFEST_META = {
                    "autotools build); per-file command-line renames (-Dwrite=, -Dmkstemp=, -Dclock_gettime=, -Dmmap=, pthread "
                    "shim) need no source change"),
         "baseline_off_cmd": "make -C /repo check",
-        "source_commits": [],  # hook commits in /repo (fix: commits are listed in KNOWN_FINDINGS.txt)
+        "source_commits": ["f6a573c"],  # hook commits in /repo (fix: commits are listed in KNOWN_FINDINGS.txt)
         "add_only": True,
     },
     "engines": [
@@ -293,5 +293,28 @@ PROPS["C15"] = {
     "tiers": {
         "quick": [{"mode": "small", "kv": {"maxlen": 64}}, {"mode": "big", "workers": 5, "kv": {"sizes": 1}}, {"mode": "rc", "cases": 1200, "max_size": 100}],
         "thorough": [{"mode": "small", "kv": {"maxlen": 300}}, {"mode": "big", "workers": 5, "kv": {"sizes": 2}}, {"mode": "rc", "cases": 6000, "max_size": 100}],
+    },
+}
+
+PROPS["C06"] = {
+    "manifest": {
+        "level_text": ("Generated add sequences (duplicates within and across chunks, sorted/reverse/all-equal patterns, empty key, empty "
+                       "input) x memory limits from one entry per chunk to everything in memory x pools 0..8 x {mtbl_sorter_iter, "
+                       "mtbl_sorter_write}. Oracle: merged model over the multiset of adds (token multisets), callback count, refusal of "
+                       "add/write after iteration began, spill templates under the configured directory (mkstemp shim), spill no later than "
+                       "the documented limit (un-pooled), temp directory empty. Exploration."),
+        "level_note": TRUST + " Needs the MTBL_VERIF hook (MIN_SORTER_MEMORY lowered) so that multi-chunk sorts are reachable; sorter.c is compiled with -Dmkstemp=verif_mkstemp.",
+        "technique": PBT + "; reference model of the sorted/merged multiset, libc-call shim (mkstemp) as observation point",
+    },
+    "src": "props/C06.cpp", "extra_src": ["harness/shims/shims.c"], "shims": ["sorter.mkshim"],
+    "level": "exploration",
+    "rule": ("case = (sequence of added keys over a tiny universe, max_memory, pool size, consumer, merge option). Non-trivial: the "
+             "sort spilled >= 2 chunks and some key was added more than once. Distinct by FNV-1a of the serialised case."),
+    "expect_tags": ["multi_chunk", "chunks_ge8", "duplicate_keys", "pooled", "sorter_write", "empty_input", "empty_key",
+                    "no_merge_function", "one_entry_per_chunk"],
+    "assumptions": TABLE_ASSUME,
+    "tiers": {
+        "quick": [{"mode": "rc", "cases": 1000, "max_size": 100}],
+        "thorough": [{"mode": "rc", "cases": 25000, "max_size": 100}],
     },
 }
